@@ -655,13 +655,11 @@ class _SetOperation(Selectable, Term):  # type:ignore[misc]
 
         # an operand's own alias defines no name inside the set operation
         set_ctx = ctx.copy(subquery=self.base_query.wrap_set_operation_queries, with_alias=False)
-        base_querystring = self.base_query.get_sql(self._operand_ctx(self.base_query, set_ctx))
+        base_querystring = self._operand_sql(self.base_query, set_ctx)
 
         querystring = base_querystring
         for set_operation, set_operation_query in self._set_operation:
-            set_operation_querystring = set_operation_query.get_sql(
-                self._operand_ctx(set_operation_query, set_ctx)
-            )
+            set_operation_querystring = self._operand_sql(set_operation_query, set_ctx)
 
             if self._width(self.base_query) != self._width(set_operation_query):
                 raise SetOperationException(
@@ -700,6 +698,20 @@ class _SetOperation(Selectable, Term):  # type:ignore[misc]
             operand = operand.base_query
         return len(operand._selects)
 
+    @classmethod
+    def _operand_sql(cls, operand: Any, set_ctx: SqlContext) -> str:
+        # An operand that is itself a set operation is one unit: a.except_of(b.except_of(c)) means a EXCEPT (b EXCEPT c)
+        if (
+            isinstance(operand, _SetOperation)
+            and not set_ctx.subquery
+            and set_ctx.dialect == Dialects.SQLITE
+        ):
+            # SQLite's grammar has no bracketed operands: the unit is written as a FROM-subquery
+            return "SELECT * FROM {operand}".format(
+                operand=operand.get_sql(set_ctx.copy(subquery=True))
+            )
+        return operand.get_sql(cls._operand_ctx(operand, set_ctx))
+
     @staticmethod
     def _operand_ctx(operand: Any, set_ctx: SqlContext) -> SqlContext:
         # An operand with ORDER BY / LIMIT / OFFSET of its own must be bracketed, or those clauses would end the
@@ -707,7 +719,8 @@ class _SetOperation(Selectable, Term):  # type:ignore[misc]
         if set_ctx.subquery or set_ctx.dialect == Dialects.SQLITE:
             return set_ctx
         has_tail = (
-            getattr(operand, "_orderbys", None)
+            isinstance(operand, _SetOperation)
+            or getattr(operand, "_orderbys", None)
             or getattr(operand, "_limit", None) is not None
             or getattr(operand, "_offset", None) is not None
         )
